@@ -814,8 +814,8 @@ Lemma adapters_thm (g : graph) (W : wf g) (shown : list nat) (stream topo rv : s
                    In (y, x, k) (edge_triples rv)).
 Proof.
   intros SH. split.
-  - intros TO. destruct (topo_parts g shown stream topo SH TO) as (A & B & C).
+  - intros TO. edestruct topo_parts as (A & B & C); [exact TO|].
     split; [assumption|]. split; [assumption|]. split; [assumption|].
-    exact (topo_before_ancestors g W shown stream topo SH TO).
+    eapply topo_before_ancestors; eassumption.
   - apply reverse_ok_sound.
 Qed.
